@@ -548,8 +548,30 @@ def matches(ref, obs):
 
 
 # --------------------------------------------------------------------------- alphabets
+class Iter:
+    """A re-iterable that is nothing but an Iterable (no __len__ / __getitem__ / keys, not a generator)."""
+
+    def __init__(self, *items):
+        self._items = items
+
+    def __iter__(self):
+        return iter(self._items)
+
+    def __repr__(self):
+        return "Iter%r" % (self._items,)
+
+
 def contexts(marker=""):
-    """Context value assignments every case is evaluated against."""
+    """Context value assignments every case is evaluated against.
+
+    `cm` .. `kv` are the *type alphabet* of spread operands: mappings that are not a plain dict
+    (ChainMap, mappingproxy, UserDict, an OrderedDict as the dict-subclass control) and iterables that are
+    not a list (tuple, a bare Iterable, a dict-keys view).  Mapping keys are strings (one of them an
+    aggregate key); `cm` / `ud` are non-empty in both contexts so that `|default:""` keeps the mapping.
+    """
+    from collections import ChainMap, OrderedDict, UserDict
+    from types import MappingProxyType
+
     m = marker
     return [
         {
@@ -560,6 +582,13 @@ def contexts(marker=""):
             "s": "str" + m,
             "n": 3,
             "o": {"k": [4, 5], "m": {"q": 1}},
+            "cm": ChainMap({"k": "v" + m}, {"j": 2, "k": "shadowed"}),
+            "mp": MappingProxyType({"k": [4, 5], "at:x": 1}),
+            "ud": UserDict({"k": "v" + m, "data-x": None}),
+            "od": OrderedDict([("z", 1), ("k", 2)]),
+            "tu": (1, "b" + m),
+            "it": Iter(1, "b" + m),
+            "kv": {"k": 1, "a b": 2}.keys(),
         },
         {
             "x": [],
@@ -570,12 +599,20 @@ def contexts(marker=""):
             "n": 0,
             "o": {"k": "zw", "m": {}},
             "missing": 7,
+            "cm": ChainMap({}, {"at:x": "q" + m}),
+            "mp": MappingProxyType({}),
+            "ud": UserDict({"j": [0]}),
+            "od": OrderedDict(),
+            "tu": (),
+            "it": Iter({"k": 1}),
+            "kv": {"j": 0}.keys(),
         },
     ]
 
 
-LIST_VARS = ("x", "y", "o.k")  # iterable (non-mapping) in every context
-DICT_VARS = ("d", "e", "o.m")  # mapping in every context
+LIST_VARS = ("x", "y", "o.k", "tu", "it", "kv")  # iterable (non-mapping) in every context
+DICT_VARS = ("d", "e", "o.m", "cm", "mp", "ud", "od")  # mapping in every context
+TYPE_VARS = ("cm", "mp", "ud", "od", "tu", "it", "kv")  # the type alphabet of spread operands
 
 
 def atoms_full(marker=""):
@@ -608,7 +645,36 @@ def atoms_full(marker=""):
         ("tpl", (("tag", "{% lorem 1 w %}", "lorem"),)),
         ("tpl", (("tag", "{% lorem 2 w %}", "lorem ipsum"), ("text", "!"))),
         ("tpl", (("text", "a" + m + " "), ("comment", "c"))),
-    ]
+    ] + tpl_quote_atoms(m) + [V(n) for n in TYPE_VARS]
+
+
+def tpl_quote_atoms(marker=""):
+    """Nested-template strings whose content starts and / or ends with a quote character.
+
+    For each outer quote kind q: the content is  <start> body <end>  with start / end drawn from
+    {nothing, the other quote kind bare, q backslash-escaped} (not both nothing) and body a single
+    `{{ x }}` (a list: the single-node pass-through would hand over the raw object) or a single
+    `{% lorem 1 w %}`; plus the other quote kind in the middle only (` a '{{ x }}' b`) as control.
+    2 x (8 x 2 + 1) = 34 atoms.  The printer keeps the outer quote kind the content requires in
+    every layout (swapping it would change the denoted value).
+    """
+    bodies = [("var", leaf(V("x"))), ("tag", "{% lorem 1 w %}", "lorem")]
+    out = []
+    for outer in ('"', "'"):
+        edges = (None, _other(outer), "\\" + outer)
+        for body in bodies:
+            for st in edges:
+                for en in edges:
+                    if st is None and en is None:
+                        continue
+                    pieces = ([("text", st)] if st else []) + [body] + ([("text", en)] if en else [])
+                    out.append(("tpl", tuple(pieces)))
+        o = _other(outer)
+        out.append(("tpl", (("text", "a" + marker + " " + o), bodies[0], ("text", o + " b"))))
+    return out
+
+
+TYPE_CHAINS = ((), (("default", S("")),))  # filter chains applied to the type-alphabet variables
 
 
 def filter_chains(marker=""):
@@ -631,7 +697,8 @@ def filter_chains(marker=""):
 def leaves_full(marker=""):
     out = []
     for a in atoms_full(marker):
-        for ch in filter_chains(marker):
+        # the type alphabet is about spreading / passing through, not about filters: own (short) chain list
+        for ch in TYPE_CHAINS if (a[0] == "var" and a[1] in TYPE_VARS) else filter_chains(marker):
             if a[0] == "tpl" and ch:
                 continue  # excluded corner: filters on nested-template strings
             out.append(leaf(a, *ch))
